@@ -307,7 +307,14 @@ func prop(c Case) (o pbt.Outcome) {
 			}
 			umu.Lock()
 			defer umu.Unlock()
-			if dir != c.Mut.Dir || len(seg.Payload) == 0 {
+			// targets are the sequenced segments of the direction: data, and the
+			// session segments (open request / response, close) with or without
+			// payload; pure acknowledgements are not addressed
+			untargeted := len(seg.Payload) == 0 && !refproto.IsSession(seg.Meta.Proto)
+			if c.Mut.Kind == 8 {
+				untargeted = len(seg.Payload) == 0
+			}
+			if dir != c.Mut.Dir || untargeted {
 				if dir == c.Mut.Dir {
 					earlier = append(earlier, d.Data)
 				}
